@@ -39,7 +39,9 @@ LEVEL_NOTE = ("trusted: Coq kernel + vm_compute, PrimFloat primitives; BLAS/nump
               "Coq model too; the expected-maximum-breeding-value factories are compared with the definition (mean over exactly the replicates drawn of "
               "the maximum over the progeny of the replicate) on the progeny the library itself simulated, which the harness records at the library's call of "
               "dense_dh / MatingProtocol.mate (that those progeny are Mendelian is only checked allele-wise here; meiosis is C01/C02); the kernel translator "
-              "(harness/translate/c05_kernel.py on top of pyexpr) is trusted and fails closed; the |sum x| < 1e-10 guard of the real-encoded classes stays a known finding (design decision of the library); "
+              "(harness/translate/c05_kernel.py on top of pyexpr) is trusted and fails closed; the flags the PAU / MOGS tfreq setters store are not refreshed by an "
+              "in-place update of the target array (known finding C05-tfreq-inplace-stale-flags: modelled as coded, refuted, proved under the exact guard 'no target changes "
+              "its class'); the |sum x| < 1e-10 guard of the real-encoded classes stays a known finding (design decision of the library); "
               "the binary64 division theorem rests on Flocq's PrimFloat bridge (classical reals); simulation-based problems (look-ahead) are out of scope")
 TECHNIQUE = "Coq proof over an executable rational/binary64 model; in-Coq vm_compute correspondence with the implementation; exact-rational predicate"
 RULE = ("case = (criterion family, candidate data on a dyadic grid, selected multiset s, listing permutation, positive scale a, free real / "
@@ -102,6 +104,11 @@ SKIPPED = {
     "RealLookAheadGeneralizedWeightedGenomicSelectionProblem": "latentfn simulates breeding cycles with the global numpy.random stream "
                                                                "(meiosis/mating are properties C01/C08); no closed-form definition to compare with",
 }
+
+# public functions of sel/prob/trans.py: driven as objective / constraint transformations (see _trans_fn), or skipped with a reason
+TRANS_DRIVEN = {"trans_identity", "trans_empty", "trans_sum", "trans_dot", "trans_decnvec_sum_eq"}
+TRANS_SKIPPED = {"trans_ndpt_to_vec_dist": "a transformation of a whole non-dominated point set (front -> distances to a vector), not of a latent vector: "
+                                           "it is the default ndset_trans of the selection protocols and is checked by property C19"}
 
 # variance-matrix factories the usefulness-criterion constructors are driven with: class name (module of the same name in
 # pybrops.model.vmat.fcty) -> (number of parents, expected parental genome contributions in the column order of the cross map).
@@ -1425,7 +1432,10 @@ def run_special(case):
         for nme, mod in have.items():
             cls = getattr(importlib.import_module(mod), nme)
             fm[nme] = sorted(a for a in dir(cls) if a.startswith("from_") and callable(getattr(cls, a)))
-        return {"concrete": have, "factories": fm}
+        import inspect
+        from pybrops.breed.prot.sel.prob import trans as T
+        tf = sorted(n for n, f in vars(T).items() if inspect.isfunction(f) and f.__module__ == T.__name__ and not n.startswith("_"))
+        return {"concrete": have, "factories": fm, "trans": tf}
     if k == "stub":
         import importlib
         cls = getattr(importlib.import_module(P + "MultiObjectiveGenomicMatingProblem"), "MultiObjectiveGenomicSubsetMatingProblem")
@@ -1471,6 +1481,10 @@ def pred_special(case, out):
             elif nme in mapped and mapped[nme] != mod: bad.append("class %s found in %s, expected %s" % (nme, mod, mapped[nme]))
         for nme in list(mapped) + list(SKIPPED):
             if nme not in have: bad.append("class %s of the family table no longer exists as a concrete class" % nme)
+        for nme in out.get("trans", []):
+            if nme not in TRANS_DRIVEN and nme not in TRANS_SKIPPED: bad.append("function %s of sel/prob/trans.py is neither driven as a transformation nor skipped with a reason" % nme)
+        for nme in list(TRANS_DRIVEN) + list(TRANS_SKIPPED):
+            if nme not in out.get("trans", [nme]): bad.append("function %s of the harness table no longer exists in sel/prob/trans.py" % nme)
         famof = {c: fam for fam in FAMILIES for (m, c) in family_classes(fam).values()}
         for nme, methods in sorted(out.get("factories", {}).items()):
             driven = FACTORY_METHODS.get(famof.get(nme), set())
